@@ -49,7 +49,8 @@ REQUIRED = ('range_forms_checked', 'range_plus_forms', 'range_interval_forms',
             'full_deals_checked', 'hilo_deals', 'no_low_deals',
             'engine_showdowns_compared', 'partial_deals_checked',
             'icm_vectors_checked', 'icm_reference_compared',
-            'dead_combination_deals', 'rank_order_passes')
+            'dead_combination_deals', 'rank_order_passes',
+            'convergence_checks')
 
 STD = '23456789TJQKA'
 SUITS = 'cdhs'
@@ -359,6 +360,97 @@ def check_equities(res, rng):
                                              for x in results[0])))
 
 
+def exact_shares(hand_types, holes, board):
+    """Shares of one pot for fully known cards (Fractions), as the engine
+    pays: hand types somebody qualifies for share the pot equally, ties
+    split."""
+    n = len(holes)
+    per_type = []
+    for ht in hand_types:
+        hands = [ht.from_game_or_none(h, board) for h in holes]
+        if any(h is not None for h in hands):
+            per_type.append(hands)
+    out = [Fraction(0)] * n
+    if not per_type:
+        return [Fraction(1, n)] * n
+    for hands in per_type:
+        best = max(h for h in hands if h is not None)
+        win = [i for i, h in enumerate(hands) if h is not None and h == best]
+        for i in win:
+            out[i] += Fraction(1, len(per_type) * len(win))
+    return out
+
+
+def check_convergence(res, rng):
+    """Partially specified deal with at most two unknown cards: the exact
+    equity (enumeration of every completion) vs the Monte-Carlo estimate,
+    which must lie within 6 standard errors (false-alarm odds ~2e-9 per
+    comparison)."""
+    hts, deck, hole_n, board_n = rng.choice(
+        [t for t in TUPLES if t[3] == 5 and t[2] == 2][:3] or TUPLES[:1])
+    hand_types = tuple(getattr(pk_hands, h) for h in hts)
+    d = list(Deck[deck])
+    n = rng.randint(2, 3)
+    cards = rng.sample(d, n * hole_n + board_n)
+    holes = [list(cards[i * hole_n:(i + 1) * hole_n]) for i in range(n)]
+    board = list(cards[n * hole_n:])
+    # hide one or two cards: hole cards of one player and/or board cards
+    hidden = rng.choice([('h',), ('h', 'h'), ('h', 'b'), ('b',), ('b', 'b')])
+    victim = rng.randrange(n)
+    kh = list(holes[victim])
+    kb = list(board)
+    for w in hidden:
+        if w == 'h' and kh:
+            kh.pop()
+        elif kb:
+            kb.pop()
+    need_h = hole_n - len(kh)
+    need_b = board_n - len(kb)
+    known = [c for i, h in enumerate(holes) if i != victim for c in h] \
+        + kh + kb
+    rest = [c for c in d if c not in known]
+    from itertools import permutations, combinations
+    total = [Fraction(0)] * n
+    count = 0
+    for hc in combinations(rest, need_h):
+        rest2 = [c for c in rest if c not in hc]
+        for bc in combinations(rest2, need_b):
+            hs = [tuple(kh) + hc if i == victim else tuple(h)
+                  for i, h in enumerate(holes)]
+            sh = exact_shares(hand_types, hs, tuple(kb) + bc)
+            for i in range(n):
+                total[i] += sh[i]
+            count += 1
+    exact = [float(t / count) for t in total]
+    ranges = [[tuple(kh)] if i == victim else [tuple(h)]
+              for i, h in enumerate(holes)]
+    N = 300
+    payload = {'kind': 'convergence', 'hand_types': list(hts),
+               'ranges': [[text(c) for c in r] for r in ranges],
+               'board': text(kb)}
+    try:
+        eq = calculate_equities(ranges, kb, hole_n, board_n, Deck[deck],
+                                hand_types, sample_count=N)
+    except Exception as exc:   # noqa: BLE001
+        res.violation(f'calculate_equities raised {type(exc).__name__}: '
+                      f'{exc} for {payload}', payload)
+        return
+    res.counters['convergence_checks'] += 1
+    for i in range(n):
+        p = exact[i]
+        # a share lies in [0, 1]: its variance is at most p(1-p)
+        bound = 6 * math.sqrt(max(p * (1 - p), 1e-4) / N) + 1e-9
+        if abs(eq[i] - p) > bound:
+            res.violation(
+                f'Monte-Carlo equity of player {i} = {eq[i]:.4f} with {N} '
+                f'samples, exact enumeration over {count} completions gives '
+                f'{p:.4f} (6 sigma = {bound:.4f}); all: {eq} vs {exact} for '
+                f'{payload}', payload)
+            return
+    res.sigs.add(sig('conv', hts, n, hidden, tuple(round(x, 3)
+                                                   for x in exact)))
+
+
 def check_partial(res, rng):
     hts, deck, hole_n, board_n = rng.choice(TUPLES[:5])
     hand_types = tuple(getattr(pk_hands, h) for h in hts)
@@ -499,6 +591,8 @@ def run_shard(seed, shard, of, tier, deadline):
         check_equities(res, rng)
         if k % 3 == 0:
             check_partial(res, rng)
+        if k % 4 == 0:
+            check_convergence(res, rng)
         check_icm(res, rng)
         check_icm(res, rng)
         if k % 10 == 0:
